@@ -59,6 +59,8 @@ def case_st(draw):
         "pos": [[draw(fl(0.5, 4.5)) for _ in range(3)] for _ in range(3)],
         # the log stream may already hold text of the user's (a title, an earlier run) when the simulation gets it
         "log_prefix": draw(st.sampled_from(["", "", "# production run 7\n", "Class  Step  leftover of an earlier log\n  old row\n"])),
+        # cycles per step left at the driver's default (the atom count at construction time)
+        "default_cycles": draw(st.booleans()),
         "logfile": draw(st.sampled_from([True, True, False])), "trajectory": draw(st.sampled_from([True, True, False])),
         # create the generators of consecutive irun segments first and exhaust them afterwards
         "deferred_irun": draw(st.sampled_from([False, False, True])),
@@ -84,10 +86,11 @@ def build(case):
     if case.get("trajectory", True):
         kw["trajectory"] = traj
     if case["driver"] == "Canonical":
-        mc = Canonical(atoms, temperature=3000.0, max_cycles=2, **kw)
+        mc = Canonical(atoms, temperature=3000.0, max_cycles=(None if case.get("default_cycles") else 2), **kw)
         mc.add_move(DisplacementMove(np.arange(3), Ball(0.3)), name="d")
     elif case["driver"] == "GrandCanonical":
-        mc = GrandCanonical(atoms, exchange_atoms=Atoms("Ar"), temperature=3000.0, chemical_potential=-0.3, number_of_exchange_particles=3, max_cycles=2, **kw)
+        mc = GrandCanonical(atoms, exchange_atoms=Atoms("Ar"), temperature=3000.0, chemical_potential=-0.3, number_of_exchange_particles=3,
+                            max_cycles=(None if case.get("default_cycles") else 2), **kw)
         mc.add_move(DisplacementMove(np.arange(3), Ball(0.3)), name="d")
         mc.add_move(ExchangeMove(np.arange(3)), name="x")
     elif case["driver"] == "Isobaric":
